@@ -11,7 +11,7 @@ F1_SIG = "shutdown-hang"
 
 def build(ctx):
     srcs = [os.path.join(vlib.HARNESS, "hrun.c")] + ctx.core_sources(mpi=False)
-    return ctx.cc("hrun", srcs)
+    return ctx.cc("hrun", srcs, extra=["-Wl,--wrap=stats_take"])
 
 
 def gen_configs(ctx, n, threads=(1, 2, 3, 4), ckpts=(1, 2, 3, 7, 0), big=False, tterm=False, fossil_heavy=False, sparse=0):
@@ -447,7 +447,7 @@ def search_witness(ctx, divs, per_cfg=24, max_cfgs=3):
 
 def build_peer(ctx):
     srcs = [os.path.join(vlib.HARNESS, "hrun.c")] + ctx.core_sources(mpi=True)
-    return ctx.cc("hrun_peer", srcs, extra=["-I" + os.path.join(vlib.HARNESS, "fakempi")], defs=["VERIF_FAKE_PEER"])
+    return ctx.cc("hrun_peer", srcs, extra=["-I" + os.path.join(vlib.HARNESS, "fakempi"), "-Wl,--wrap=stats_take"], defs=["VERIF_FAKE_PEER"])
 
 
 def peer_configs(ctx, n, salt=0):
@@ -562,7 +562,7 @@ PEER_ORACLES = ("s_rb_mismatch", "s_below_gvt", "s_gvt_decrease", "s_gvt_disagre
                 "s_remote_id_not_unique")
 
 
-def peer_matrix(ctx, n_quick, n_thorough, salt=0, jobs=12):
+def peer_matrix(ctx, n_quick, n_thorough, salt=0, jobs=12, extra_oracles=()):
     """returns an Agg of adversarial-peer runs, obligations and violations registered"""
     import concurrent.futures
     ctx.trusted.append("adversarial-peer runs: rank 1 is played by harness/fakempi_impl.h behind a fake <mpi.h>; the real mpi.c, gvt.c, "
@@ -587,7 +587,7 @@ def peer_matrix(ctx, n_quick, n_thorough, salt=0, jobs=12):
         ctx.violation("remote-event-not-exactly-once", {"cfg": r["cfg"], "failures": r["s_fails"]}, True)
     for r in agg.crashes[:3]:
         ctx.violation("runtime-crash", {"cfg": r["cfg"], "mode": "peer", "first_divergence": r.get("div"), "output": r["out"][-600:]}, True)
-    for k in PEER_ORACLES:
+    for k in PEER_ORACLES + tuple(extra_oracles):
         if agg.tot.get(k, 0):
             bad = [r["cfg"] for r in [] ]
             ctx.violation("oracle:" + k, {"count": agg.tot[k], "mode": "peer"}, True)
